@@ -1,7 +1,7 @@
 #!/bin/sh
-# Build govc offline with go1.26.8 + x/tools v0.50.0 from the module cache.
+# Build govc offline with go1.26.8 + x/tools v0.50.0 from the module cache, plus bounded-check helpers.
 set -e
-cd "$(dirname "$0")/govc"
-export GOFLAGS=-mod=mod GOPROXY=off GOSUMDB=off GOTOOLCHAIN=local
-mkdir -p ../bin ../out ../evidence
-go1.26.8 build -o ../bin/govc .
+cd "$(dirname "$0")"
+mkdir -p bin out evidence
+( cd govc && GOFLAGS=-mod=mod GOPROXY=off GOSUMDB=off GOTOOLCHAIN=local go1.26.8 build -o ../bin/govc . )
+( cd bounded/log2 && GOFLAGS=-mod=mod GOPROXY=off GOSUMDB=off GOTOOLCHAIN=local go1.26.8 build -o ../../bin/log2check . )
